@@ -65,7 +65,7 @@ theorem C09_some_parked_node_awaits_unparked (inp : RunInput) (hac : Acyclic inp
     results, every selection, oracle, flag and set-iteration order — no reachable state has the dispatcher ended by the
     cyclic-dependency error, neither from the `ancestors` test nor from `_check_deadlock`, and the run never ends with
     that error.  Proof (`Proofs/C09Wait.lean`): in the state in which `_check_deadlock` would raise, every parked node
-    awaits something (`InvE.w`), what it awaits exists, is registered in `waiting_me` and unfinished (`InvE.e`, with
+    awaits something (`InvE9.w`), what it awaits exists, is registered in `waiting_me` and unfinished (`InvE9.e`, with
     `dispatched = []`), hence itself parked (`InvD.a2`, `InvL.a4/a5`); rank descent (`waiting_descent`) empties
     `waiting`. -/
 theorem C09_no_false_cycle_serial (inp : RunInput) (hser : inp.runner = .serial) (hac : Acyclic inp) (s : Sys)
@@ -211,11 +211,14 @@ task lies on no cycle.  A started task has all its `edgesAt`-successors reported
 normal end every selected task is reported (C02, `all_processed_*`).
 
 Scope: every input, also those whose calc tasks return dependency values before their execution FAILS (`calcResFail`,
-which doit delivers as well: M1 `deliverF`).  The closure graph `edgesAt` of these statements counts what *executed /
-up-to-date* calc_deps delivered; what a failed calc_dep delivered is additional: the node invariant `NG` bounds the
-lists of an `ExecNode` by `StageF` / `CalcF` (Proofs/C09Ord.lean), and everything those add hangs below a failed member
-of the determined dependencies (`StageF.cases`) — so it can neither put a task into the setup stage nor reorder the
-terminal reports along `edgesAt`. -/
+which doit delivers as well: `_process_calc_dep_results` reads `task.values` whatever the `run_status`; M1 `deliverF`).
+Since wave 5 the closure graph `edgesAt` of these statements counts those deliveries too (`resAt`: the values of a calc
+task that has a start event and a `failure` report), so a cycle that exists ONLY through what a failed calc task
+delivered is covered (`C09_cycle_only_through_failed_delivery`, `exFailCycle`).  Proof: `InvTF` (Proofs/C09OrdF.lean)
+extends the order of the terminal reports to `StageH` = `StageG` + the deliveries of failed calc_deps that were started;
+at `select_task` time everything such a calc_dep returned is in the node's dynamic lists (the completeness invariant
+`AllDCF` of C08, `Dyn.InvDen`) and finished, so also an `unmet` report of the receiver is younger than the reports of
+what the failed calc_dep delivered. -/
 
 /-- C09 (cycle diagnosed), serial runner, FULL: (1) a run that ends normally — `run_tasks` returned, no exception, not
     stopped by a failure — has no cycle in the closure graph of its selection; (2) in every reachable state (every
@@ -259,16 +262,12 @@ theorem C09_cycle_exit3 (inp : RunInput) (s : Sys) (hr : Reach inp s ∨ PReach 
 theorem C09_cycle_task_never_reported (inp : RunInput) (s : Sys) (hr : Reach inp s ∨ PReach inp s) (nTasks : Nat)
     (hb : BoundedCalc inp nTasks) (t : Name) (hc : onCycle inp nTasks (trace inp s) t = true) :
     s.events.countP (Ev.isTerminalOf t) = 0 := by
-  have hT : InvT inp s := by
+  have c : CtxC inp s := by
     rcases hr with a | a
-    · exact reach_invT a
-    · exact preach_invT a
-  have h2 : Inv2 inp s := by
-    rcases hr with a | a
-    · exact reach_inv2 a
-    · exact (preach_inv a).1
+    · exact reach_ctxC a
+    · exact preach_ctxC a
   cases hf : fstTerm s.events t with
-  | some a => rw [reported_not_onCycle hT h2 (calcsSat_of_bounded hb _) hf] at hc; cases hc
+  | some a => rw [reported_not_onCycle c (calcsSat_of_bounded hb _) hf] at hc; cases hc
   | none =>
     apply List.countP_eq_zero.mpr
     intro e he
@@ -279,15 +278,11 @@ theorem C09_cycle_task_never_reported (inp : RunInput) (s : Sys) (hr : Reach inp
 theorem C09_report_after_dependencies (inp : RunInput) (s : Sys) (hr : Reach inp s ∨ PReach inp s) (nTasks : Nat)
     (hb : BoundedCalc inp nTasks) (t : Name) (a : Nat) (ha : fstTerm s.events t = some a) :
     ∀ d ∈ edgesAt inp nTasks (trace inp s) t, ∃ b, fstTerm s.events d = some b ∧ b < a := by
-  have hT : InvT inp s := by
+  have c : CtxC inp s := by
     rcases hr with x | x
-    · exact reach_invT x
-    · exact preach_invT x
-  have h2 : Inv2 inp s := by
-    rcases hr with x | x
-    · exact reach_inv2 x
-    · exact (preach_inv x).1
-  exact edge_older hT h2 (calcsSat_of_bounded hb _) ha
+    · exact reach_ctxC x
+    · exact preach_ctxC x
+  exact edge_older c (calcsSat_of_bounded hb _) ha
 
 /-- `halted` is final for the main thread of both systems (and a raised cyclic error reaches it in two steps,
     `C09_cyclic_ends_run_*`) -/
@@ -446,5 +441,62 @@ example : ∃ s, Reach exFailDeliver s ∧ s.rpc = .halted ∧ s.events.countP (
     s.events.countP (Ev.isStartOf 2) = 0 :=
   ⟨_, autoRun_reach (by decide) false false 400 _ Reach.init, by decide +kernel, by decide +kernel, by decide +kernel,
     by decide +kernel, by decide +kernel⟩
+
+/-! ### a cycle that exists ONLY through what a FAILED calc task delivered -/
+
+/-- `1` has the calc_dep `0`; `0` is executed, returns `task_dep: [1]` and then fails (`calcResFail`); `--continue`.  The
+    only cycle `1 → 1` of the closure graph is the delivered edge; the graph without failed deliveries is acyclic. -/
+def exFailCycle : RunInput :=
+  { taskDep := fun _ => [], calcDep := fun n => if n = 1 then [0] else [], setup := fun _ => [], sel := [1],
+    continue_ := true, outcome := fun n => if n = 0 then .failed else .ok,
+    calcResFail := fun n => if n = 0 then { tasks := [1] } else {} }
+
+/-- … and through one more task: `0` delivers `task_dep: [2]`, `2` has the task_dep `1` -/
+def exFailCycle2 : RunInput :=
+  { exFailCycle with taskDep := fun n => if n = 2 then [1] else [],
+                     calcResFail := fun n => if n = 0 then { tasks := [2] } else {} }
+
+/-- C09 (cycle diagnosed) for a cycle that exists only through a failed delivery, every run, all three runners: if the
+    closure graph WITH the deliveries of failed calc tasks has a cycle although the graph without them
+    (`cycleTasksGood`, the monitor of the earlier rounds) has none, and the run was not cut short by the failure
+    (`--continue`: `stop = false`) and did not die of an internal error, then it ended with the cyclic-dependency
+    error and exit code 3, and no task on that cycle was started or reported -/
+theorem C09_failed_delivery_cycle_diagnosed (inp : RunInput) (s : Sys) (hr : Reach inp s ∨ PReach inp s) (nTasks : Nat)
+    (hb : BoundedCalc inp nTasks) (_honly : cycleTasksGood inp nTasks (trace inp s) = [])
+    (hcyc : cycleTasks inp nTasks (trace inp s) ≠ []) (hend : s.rpc = .halted) (hstop : s.stop = false)
+    (hnc : s.halt ≠ .crash) :
+    s.halt = .cyclic ∧ exitCode s = 3 ∧
+    ∀ t ∈ cycleTasks inp nTasks (trace inp s),
+      s.events.countP (Ev.isStartOf t) = 0 ∧ s.events.countP (Ev.isTerminalOf t) = 0 := by
+  obtain ⟨h1, h2⟩ := C09_cycle_exit3 inp s hr nTasks hb hcyc hend hstop hnc
+  refine ⟨h1, h2, fun t ht => ⟨(C09_cycle_diagnosed inp s hr nTasks hb).2 t ht, ?_⟩⟩
+  exact C09_cycle_task_never_reported inp s hr nTasks hb t (by unfold cycleTasks at ht; exact (List.mem_filter.mp ht).2)
+
+/-- non-vacuity, and the instance the Python monitor alone used to judge: on `exFailCycle` (serial runner, `--continue`)
+    the failed calc task `0` is executed and reported, the run ends with the cyclic error and exit code 3, `1` is never
+    started; the graph with failed deliveries has the cycle `[1]`, the graph without them has none; the monitor accepts
+    the model's observables and rejects a run that ended normally -/
+theorem C09_cycle_only_through_failed_delivery :
+    BoundedCalc exFailCycle 2 ∧
+    ∃ s, Reach exFailCycle s ∧ s.rpc = .halted ∧ s.stop = false ∧ s.halt = .cyclic ∧ exitCode s = 3 ∧
+      s.events.countP (Ev.isStartOf 0) = 1 ∧ s.events.countP (Ev.isStartOf 1) = 0 ∧
+      cycleTasks exFailCycle 2 (trace exFailCycle s) = [1] ∧ cycleTasksGood exFailCycle 2 (trace exFailCycle s) = [] ∧
+      monC09 exFailCycle 2 (trace exFailCycle s) { exit := 3, errCyclic := true, errWait := false, hung := false } = true ∧
+      monC09 exFailCycle 2 (trace exFailCycle s) { exit := 1, errCyclic := false, errWait := false, hung := false } = false := by
+  refine ⟨fun t => ⟨by simp [exFailCycle], by simp [exFailCycle]⟩, ?_⟩
+  exact ⟨_, autoRun_reach (by decide) false false 400 _ Reach.init, by decide +kernel, by decide +kernel,
+    by decide +kernel, by decide +kernel, by decide +kernel, by decide +kernel, by decide +kernel, by decide +kernel,
+    by decide +kernel, by decide +kernel⟩
+
+/-- the same through one more task (`1 → 2 → 1`, the edge `1 → 2` delivered by the failed `0`), with two worker
+    threads: every hypothesis of `C09_failed_delivery_cycle_diagnosed` holds of a reachable state -/
+example : ∃ s, PReach { exFailCycle2 with runner := .thread, numProc := 2 } s ∧ s.rpc = .halted ∧ s.stop = false ∧
+    s.halt = .cyclic ∧
+    cycleTasks { exFailCycle2 with runner := .thread, numProc := 2 } 3
+      (trace { exFailCycle2 with runner := .thread, numProc := 2 } s) ≠ [] ∧
+    cycleTasksGood { exFailCycle2 with runner := .thread, numProc := 2 } 3
+      (trace { exFailCycle2 with runner := .thread, numProc := 2 } s) = [] :=
+  ⟨_, autoRun_preach (by decide) false false 600 _ PReach.init, by decide +kernel, by decide +kernel,
+    by decide +kernel, by decide +kernel, by decide +kernel⟩
 
 end DoitModel.C09
